@@ -422,6 +422,26 @@ func runC11(c *core.Ctx) {
 			x := el.FindElement("./KeyInfo/EncryptedKey/KeyInfo/X509Data/X509Certificate")
 			x.SetText(cvn.text)
 			c11Decrypt(c, b.name+"|cert="+cvn.name, el, b.key, "certificate-mismatch")
+			// the same mismatch with the other things an X509Data may carry next to the certificate
+			if strings.HasPrefix(cvn.name, "other-rsa") {
+				for si, sib := range []string{"ds:X509IssuerSerial", "ds:X509SubjectName", "ds:X509SKI", "ds:X509CRL", "ds:X509Digest"} {
+					el2 := el.Copy()
+					xd := el2.FindElement("./KeyInfo/EncryptedKey/KeyInfo/X509Data")
+					n := etree.NewElement(sib)
+					if sib == "ds:X509IssuerSerial" {
+						n.CreateElement("ds:X509IssuerName").SetText("CN=someone")
+						n.CreateElement("ds:X509SerialNumber").SetText("424242")
+					} else {
+						n.SetText("AAAA")
+					}
+					if si%2 == 0 {
+						xd.InsertChildAt(0, n)
+					} else {
+						xd.AddChild(n)
+					}
+					c11Decrypt(c, b.name+"|cert="+cvn.name+"+"+sib, el2, b.key, "certificate-mismatch")
+				}
+			}
 		}
 		// matching cert text with surrounding white space / line breaks stays acceptable or is rejected: no verdict, no panic
 		if mine() {
@@ -430,6 +450,33 @@ func runC11(c *core.Ctx) {
 			t := x.Text()
 			x.SetText("\n  " + t[:64] + "\n" + t[64:] + "\n")
 			c11Decrypt(c, b.name+"|cert=wrapped-lines", el, b.key, "")
+		}
+	}
+
+	// 4a. a VALID cipher value with 1..blocksize-1 stray bytes appended, or cut by as many: no longer whole blocks, must be refused
+	for _, b := range bases {
+		if b.blk == "" || refenc.IsGCM(b.blk) || b.pt == nil {
+			continue
+		}
+		bs := refenc.BlockSize(b.blk)
+		cv := getCipherValue(b.el, "./CipherData/CipherValue")
+		for extra := 1; extra < bs; extra++ {
+			for _, cut := range []bool{false, true} {
+				if !mine() {
+					continue
+				}
+				el := b.el.Copy()
+				mod := append(append([]byte(nil), cv...), bytes.Repeat([]byte{byte(extra)}, extra)...)
+				tag := "valid+stray"
+				if cut {
+					if len(cv) <= extra {
+						continue
+					}
+					mod, tag = cv[:len(cv)-extra], "valid-cut"
+				}
+				setCipherValue(el, "./CipherData/CipherValue", mod)
+				c11Decrypt(c, fmt.Sprintf("%s|%s bytes=%d", b.name, tag, extra), el, b.key, "cbc-short-or-unaligned")
+			}
 		}
 	}
 
